@@ -21,7 +21,7 @@ TOUCHED = ("the higher-order formula builders' operators / _clone / _engine_name
            "FormulaEngine3Phase._run, FormulaEvaluator.apply / _timestamps_differ, BatteryManager._get_bounds, "
            "_aggregate_battery_power_bounds, PowerBoundsCalculator.calculate, OrderedRingBuffer.count_covered, MovingWindow.at")
 
-TEMPLATE = 'You are helping to test static-analysis tooling for the open-source Python project frequenz-sdk-python by producing BEHAVIOUR-PRESERVING refactorings (the tooling must stay silent on them). This is a further round (the earlier ones were like this one): earlier single-kind refactorings (pure renames, one flipped comparison, one introduced local, one extracted helper, ...) have already been collected; now we want what a maintainer doing a real clean-up commit would produce.\n\nYour sandbox: a scratch git worktree at {wt} (clean checkout of the current head). Python is /venv/bin/python (3.12, deps installed, NO network). Run the test-suite with\n\n    cd {wt} && PYTHONPATH={wt}/src /venv/bin/python -m pytest tests -q -p no:cacheprovider -n 3\n\nBaseline: exactly `332 passed`. One known quirk: tests/actor/test_actor.py::test_does_not_restart_on_normal_exit is flaky when the machine is loaded; if it is the only failure, re-run that test alone and count it as passed if it passes alone. Hard rules: work ONLY inside {wt} and {out}. NEVER use `git stash` (shared between worktrees); use `git diff > file`, `git checkout -- .`, `git apply file`. Never read or write /repo or /verif. Do not modify tests/.\n\nThe semantic property in {out}/property.json tells you which code matters (its "anchors": files, functions, mechanisms). TASK: produce TWO independent clean-up commits — each a separate patch against the clean worktree, each touching SEVERAL of the anchored functions/mechanisms of that property — that a maintainer could plausibly commit and that DO NOT change behaviour in any way (same results for every input, same exceptions of the same type in the same situations, same awaits / interleaving points in the same order, same side effects in the same order). Each patch must COMBINE at least three of the following kinds, and be larger than a toy (30–120 changed lines):\n  a. consistent renaming of locals and of private parameters/private helper names;\n  b. restructuring control flow: early-return <-> if/else <-> conditional expression; `for ... if not c: continue` <-> nested if; De Morgan; flipped comparisons; `x = x + e` <-> `x += e`; merged / split nested ifs; guard clauses reordered when they are mutually exclusive and side-effect free;\n  c. introducing locals for sub-expressions or inlining single-use locals (no reordering of side effects or awaits);\n  d. extracting code into new private helpers (methods, static methods, module-level functions, nested closures), including helpers with several return statements, helpers that return tuples, helpers that take the whole object; or inlining an existing trivial private helper;\n  e. loop <-> comprehension / `any` / `all` / `sum` / `next(...)` when evaluation order and short-circuiting are preserved; `dict.get(k) is None` <-> `k not in d` when values are never None; `set` operators <-> methods;\n  f. keyword <-> positional arguments, reordered keyword arguments, type annotations, comments, docstrings, log texts (same level and arguments), parenthesisation, line breaks;\n  g. reordering independent adjacent statements / dict literal entries / mutually exclusive elif arms / commutative operands when evaluation has no side effects and NaN/None cases are unaffected.\nEach patch must (a) keep the FULL suite at 332 passed, (b) be genuinely semantics-preserving — think hard about exceptions, evaluation order, None/NaN cases, float rounding (do not re-associate float arithmetic), object identity / aliasing, and asyncio interleaving; if in doubt about an edit, leave it out.\n\nDELIVERABLES for k = 1..2 in {out}/<k>/ : patch.diff (output of `git diff`, must apply with `git apply` to a clean checkout) and meta.json {{"property": "{pid}", "kinds": ["a","d",...], "summary": "what was refactored, function by function", "why_equivalent": "...", "suite": "332 passed"}}. Restore the worktree (`git checkout -- .`, remove untracked files you created) before each next patch and leave it clean at the end. Final reply: one short paragraph per patch.\n\nAdditional guidance for this round: prefer edits that CHANGE WHICH FUNCTION holds a piece of logic or HOW it is written rather than only its names — e.g. inline a small private helper into its only caller and delete it; rename a private helper and update its callers; move a nested closure to a private method (or the reverse); split a long function at a natural seam into two private functions that are called in sequence; turn an explicit accumulation loop into `sum(...)`/a comprehension or the reverse; replace a `match` statement by an if-chain or the reverse; replace a flag variable by try/except/else or early `continue`; merge two sibling helpers that differ in one argument into one parametrised helper. Public API (names and signatures of public methods/classes/module functions, attribute names of instance state) must not change.\n\n\nThe last dozen commits of this checkout (`git log --oneline -14`) are small bug fixes (`fix: ...`); the functions they touched ({touched}) are anchored or close to anchored code — include them in your clean-ups where they belong to your property\'s anchors, keeping their new behaviour exactly (in particular: a reduction written with `math.fsum` must stay an exactly rounded `math.fsum` over the same values — do not turn it into `sum()` or a `+=` loop, the float result would differ; `timedelta // timedelta` must not become a float division; builder operators must keep extending a COPY and leave self unchanged; the tick must keep pairing results with the snapshot it gathered over, never with a fresh look at the registry after the await).\n'
+TEMPLATE = 'You are helping to test static-analysis tooling for the open-source Python project frequenz-sdk-python by producing BEHAVIOUR-PRESERVING refactorings (the tooling must stay silent on them). This is a further round (the earlier ones were like this one): earlier single-kind refactorings (pure renames, one flipped comparison, one introduced local, one extracted helper, ...) have already been collected; now we want what a maintainer doing a real clean-up commit would produce.\n\nYour sandbox: a scratch git worktree at {wt} (clean checkout of the current head). Python is /venv/bin/python (3.12, deps installed, NO network). Run the test-suite with\n\n    cd {wt} && PYTHONPATH={wt}/src /venv/bin/python -m pytest tests -q -p no:cacheprovider -n 3\n\nBaseline: exactly `332 passed`. One known quirk: tests/actor/test_actor.py::test_does_not_restart_on_normal_exit is flaky when the machine is loaded; if it is the only failure, re-run that test alone and count it as passed if it passes alone. Hard rules: work ONLY inside {wt} and {out}. NEVER use `git stash` (shared between worktrees); use `git diff > file`, `git checkout -- .`, `git apply file`. Never read or write /repo or /verif. Do not modify tests/.\n\nThe semantic property in {out}/property.json tells you which code matters (its "anchors": files, functions, mechanisms). TASK: produce TWO independent clean-up commits — each a separate patch against the clean worktree, each touching SEVERAL of the anchored functions/mechanisms of that property — that a maintainer could plausibly commit and that DO NOT change behaviour in any way (same results for every input, same exceptions of the same type in the same situations, same awaits / interleaving points in the same order, same side effects in the same order). Each patch must COMBINE at least three of the following kinds, and be larger than a toy (30–120 changed lines):\n  a. consistent renaming of locals and of private parameters/private helper names;\n  b. restructuring control flow: early-return <-> if/else <-> conditional expression; `for ... if not c: continue` <-> nested if; De Morgan; flipped comparisons; `x = x + e` <-> `x += e`; merged / split nested ifs; guard clauses reordered when they are mutually exclusive and side-effect free;\n  c. introducing locals for sub-expressions or inlining single-use locals (no reordering of side effects or awaits);\n  d. extracting code into new private helpers (methods, static methods, module-level functions, nested closures), including helpers with several return statements, helpers that return tuples, helpers that take the whole object; or inlining an existing trivial private helper;\n  e. loop <-> comprehension / `any` / `all` / `sum` / `next(...)` when evaluation order and short-circuiting are preserved; `dict.get(k) is None` <-> `k not in d` when values are never None; `set` operators <-> methods;\n  f. keyword <-> positional arguments, reordered keyword arguments, type annotations, comments, docstrings, log texts (same level and arguments), parenthesisation, line breaks;\n  g. reordering independent adjacent statements / dict literal entries / mutually exclusive elif arms / commutative operands when evaluation has no side effects and NaN/None cases are unaffected.\nEach patch must (a) keep the FULL suite at 332 passed, (b) be genuinely semantics-preserving — think hard about exceptions, evaluation order, None/NaN cases, float rounding (do not re-associate float arithmetic), object identity / aliasing, and asyncio interleaving; if in doubt about an edit, leave it out.\n\nDELIVERABLES for k = 1..2 in {out}/<k>/ : patch.diff (output of `git diff`, must apply with `git apply` to a clean checkout) and meta.json {{"property": "{pid}", "kinds": ["a","d",...], "summary": "what was refactored, function by function", "why_equivalent": "...", "suite": "332 passed"}}. Restore the worktree (`git checkout -- .`, remove untracked files you created) before each next patch and leave it clean at the end. Final reply: one short paragraph per patch.\n\nAdditional guidance for this round: prefer edits that CHANGE WHICH FUNCTION holds a piece of logic or HOW it is written rather than only its names — e.g. inline a small private helper into its only caller and delete it; rename a private helper and update its callers; move a nested closure to a private method (or the reverse); split a long function at a natural seam into two private functions that are called in sequence; turn an explicit accumulation loop into `sum(...)`/a comprehension or the reverse; replace a `match` statement by an if-chain or the reverse; replace a flag variable by try/except/else or early `continue`; merge two sibling helpers that differ in one argument into one parametrised helper. Public API (names and signatures of public methods/classes/module functions, attribute names of instance state) must not change.\n\n\nThe last dozen commits of this checkout (`git log --oneline -14`) are small bug fixes (`fix: ...`); the functions they touched ({touched}) are anchored or close to anchored code — include them in your clean-ups where they belong to your property\'s anchors, keeping their new behaviour exactly — the newest repair gives ReportRequest.get_channel_name() a third field, set_operating_point, which must stay in the name — (in particular: a reduction written with `math.fsum` must stay an exactly rounded `math.fsum` over the same values — do not turn it into `sum()` or a `+=` loop, the float result would differ; `timedelta // timedelta` must not become a float division; builder operators must keep extending a COPY and leave self unchanged; the tick must keep pairing results with the snapshot it gathered over, never with a fresh look at the registry after the await).\n'
 
 
 def main() -> int:
